@@ -19,7 +19,7 @@ def unhexs(h):
 
 def harness_run(case):
     texts = case.get("texts") or [qa.p_program(c, None) for c in case["chunks"]]
-    return "run %s %d %d %d %s" % (case.get("api", "add"), 1 if case.get("xor") else 0, case.get("seed", 1),
+    return "run %s %d %d %d %s" % (case.get("api", "add"), case.get("xor_at", 1) if case.get("xor") else 0, case.get("seed", 1),
                                    len(texts), " ".join(hexs(t) for t in texts))
 
 
@@ -44,6 +44,17 @@ def parse_final(tokens):
         kk = int(t[j + 1])
         d["rech"] = t[j + 2:j + 2 + kk]
         d["reci"] = t[j + 3 + kk] == "1"
+        j = j + 4 + kk
+        if len(t) > j and t[j] == "reuse":
+            d["reuse"] = t[j + 1] == "1"
+            if not d["reuse"]:
+                d["reuse_class"] = int(t[j + 3])
+                prev = t[j + 6] if len(t) > j + 6 else ""
+                xor_prev = prev.startswith("x")
+                try:
+                    d["reuse_prev"] = ("[accumulate mode] " if xor_prev else "") + " || ".join(unhexs(x) for x in prev.lstrip("x").split("+"))
+                except ValueError:
+                    d["reuse_prev"] = prev
     return d
 
 
@@ -131,6 +142,19 @@ def run_programs(run, binary, cases, tag, oracle, relation, theorem_hint="", dea
     dis_set = {d[0] for d in disagreements}
     order = [d[0] for d in disagreements] + [i for i in range(len(cases)) if i not in dis_set]
     seen = set()
+    # every executed program was also run on the simulator the previous program left behind (Sym::init + reset + finish)
+    reused = 0
+    for i, o in enumerate(obs):
+        if o[0] == "ok" and o[1].get("reuse") is False:
+            reused += 1
+            if reused <= 2:
+                rep = describe(cases[i])
+                rep.update({"what": "executed on a simulator re-used through Sym::init (after the program below), this program ends in a "
+                                    "different state / classical register than on a fresh simulator",
+                            "previous_program": o[1].get("reuse_prev", "")[:2000], "fresh": short_obs(o),
+                            "reused_classical_register": o[1].get("reuse_class")})
+                run.violation(rep)
+    found += reused
     for i in order:
         fails = oracle(cases[i], obs[i])
         if fails:
